@@ -73,6 +73,22 @@ impl<'a> PeerWorld<'a> {
                 }
             }
         }
+        // the oracles key their books by 16-bit sequence number: a run whose endpoint walked
+        // more than a third of the sequence space is not judged (the generators keep runs far
+        // below this; only degenerate one- or two-byte-segment runs get here)
+        if let Some(f) = e_first_seq {
+            let far = h
+                .emits()
+                .filter(|(_, em)| em.src == e && em.dst == p)
+                .filter_map(|(_, em)| em.pkt.as_ref())
+                .filter(|pk| pk.typ == codec::ST_DATA)
+                .map(|pk| pk.seq.wrapping_sub(f))
+                .max()
+                .unwrap_or(0);
+            if far > 20_000 {
+                return None;
+            }
+        }
         Some(PeerWorld { sc, h, script, e, p, e_first_seq, e_id_send, ipv6, link, mss_floor: min_payload(link, ipv6) })
     }
 
@@ -116,6 +132,44 @@ impl<'a> PeerWorld<'a> {
             }
         }
         v
+    }
+}
+
+impl<'a> PeerWorld<'a> {
+    /// `events()` without the peer's FINs that arrive out of sequence: the endpoint drops such a
+    /// datagram whole (its acknowledgement number, window and selective ACK included), so the
+    /// sender-side oracles must not count what it carried. The in-sequence number comes from a
+    /// receiver model over the peer's delivered data packets.
+    pub fn events_effective(&self) -> Vec<(T, usize, X<'a>)> {
+        let first = self.script.pkt_seq(0);
+        let mut cum = first.wrapping_sub(1);
+        let mut got: std::collections::BTreeSet<u16> = Default::default();
+        let mut out = vec![];
+        for ev in self.events() {
+            if let X::DelivE(p, d) = &ev.2 {
+                if !d.corrupted {
+                    match p.typ {
+                        codec::ST_DATA => {
+                            let dd = crate::util::seq_diff(p.seq, cum);
+                            if dd >= 1 && dd < 4096 {
+                                got.insert(p.seq);
+                                while got.remove(&cum.wrapping_add(1)) {
+                                    cum = cum.wrapping_add(1);
+                                }
+                            }
+                        }
+                        codec::ST_FIN => {
+                            if p.seq != cum.wrapping_add(1) {
+                                continue;
+                            }
+                        }
+                        _ => {}
+                    }
+                }
+            }
+            out.push(ev);
+        }
+        out
     }
 }
 
